@@ -17,7 +17,8 @@
 (*                   is never changed by any later Commit / Tick / Fork /  *)
 (*                   Checkpoint / Register; only observed_after moves      *)
 (*   OpticBound      same for optic reads at explicit ticks / provenance   *)
-(*                   refs (the witness basis may change only by Checkpoint)*)
+(*                   refs INCLUDING the witness basis, which may change    *)
+(*                   only by a Checkpoint strictly below the coordinate    *)
 (*   Inv*            freshness is the read time; unavailable history is an *)
 (*                   error; frontier = tip entry; a fork child reads the   *)
 (*                   parent's shared prefix; a mismatching provenance ref  *)
@@ -151,15 +152,28 @@ HistoricalBound ==
 
 OSettled(x) == x.ok \/ ~(x.kind = "MissingWitness" /\ x.reason = "EvidenceUnavailable")
 OTimeless(x) == [x EXCEPT !.rd = Timeless(x.rd)]
+\* checkpoints strictly below the coordinate of a historical optic request
+LowCk(o) == IF o.w \in known THEN {c \in ckpt[o.w] : c < o.t} ELSE {}
+\* The whole optic reading (payload, envelope AND witness basis) at an explicit coordinate is a function of
+\* the history up to the coordinate and the checkpoints strictly below it: no Commit / Tick / Fork / Register
+\* and no Checkpoint at or above the coordinate changes it.  A checkpoint below the coordinate may offer
+\* another basis or turn the reading into LiveTailRequiresReduction, never into another state.
 OpticBound ==
   [][\A o \in OHistReqs :
         LET x == OpticReading(o, PLEN)
             y == OpticReading(o, PLEN)'
         IN OSettled(x) =>
-             /\ (act' # "ckpt" => OTimeless(y) = OTimeless(x))
-             /\ (act' = "ckpt" /\ x.ok => \/ (y.ok /\ Timeless(y.rd) = Timeless(x.rd))
-                                          \/ (~y.ok /\ y.kind = "LiveTailRequiresReduction"))
-             /\ (act' = "ckpt" /\ ~x.ok => y = x)]_vars
+             /\ (LowCk(o)' = LowCk(o) => OTimeless(y) = OTimeless(x))
+             /\ (LowCk(o)' # LowCk(o) /\ x.ok => \/ (y.ok /\ Timeless(y.rd) = Timeless(x.rd))
+                                                \/ (~y.ok /\ y.kind = "LiveTailRequiresReduction"))]_vars
+
+\* non-vacuity of the checkpoint cases (violated = reachable; checked by MC_C16_ckpt.cfg only through the runner's
+\* separate `-config` run): a historical optic read whose basis is checkpoint + tail while a checkpoint at or
+\* above its coordinate exists
+CkptAroundReachable ==
+  \E o \in OHistReqs : /\ o.w \in known /\ OpticReading(o, PLEN).ok /\ OpticReading(o, PLEN).basis.k = "cptail"
+                        /\ \E c \in ckpt[o.w] : c >= o.t /\ c < Len(hist[o.w])
+NeverCkptAround == ~CkptAroundReachable
 
 InvFreshness == \A q \in Reqs : LET rd == Reading(q, PLEN) IN rd.ok => rd.oag = (IF gt = 0 THEN -1 ELSE gt)
 
